@@ -61,6 +61,11 @@ CLAIMED = {
  "C18": ("4/C18", "npdataclass with 1-3 fields (1-D and 2-D): len, indexing by int / slice (symbolic bounds, steps None,-1,2) / list / array / mask, iteration, concatenate of 2-3, ==, "
          "astype to a narrower class, refusal of unequal field lengths; VarLenArray concatenation (right-aligned, zero-padded)",
          "bounds: n<=3 (4)"),
+ "C06": ("4/C06", "relational over programs: for every skeleton d = step_k(...step_1(a)) (steps: row slice / reverse / stride / list / mask, column slice / reverse / "
+         "+-2 strides, ufunc, concatenate, sort, cumsum, diff, where, a[...]) with symbolic parameters and input, and every probe (canonical read, integer row, element, row slice, "
+         "column slice, column reverse, ufunc, row sums, row assignment, column assignment; thorough adds shape/iter/tolist/nonzero/whole assignment): the probe on d equals the probe on "
+         "an array freshly built from d's rows, and assigning into d leaves a unchanged (a[...] excepted)",
+         "bounds: depth 1: all 18 steps x probes, rows<=2 (3), length<=3, parameters +-2; depth 2: 12 fixed + 8 seed-rotated (thorough: all 100) pairs of view steps; thorough depth 3 over 5 view steps"),
  "C05": ("4/C05", "sum/prod/any/all/max/min and bitwise_or/xor/and.reduce per row through the method, np.<func> and ufunc.reduce entry points, keepdims, "
          "and axis=None, over symbolic row lengths with empty rows anywhere (all-empty and zero rows included); multiplication as an uninterpreted left fold",
          "bounds: rows<=4 (5), row length<=3 (4); max/min with non-empty rows; result element type not compared (C04's subject); mean/argmax/argmin not yet covered"),
